@@ -10,7 +10,7 @@ MODULES = ["Prelude", "C09_Model", "C09_Spec", "C09_Check"]
 PROPS_MODULE = "C09_Properties"
 THEOREMS = ["C09_size_le_global", "C09_tokenbucket_le_global", "C09_schema_update_bounds", "C09_fallback",
             "C09_default_iff_deleted", "C09_fallback_heartbeat", "C09_hysteresis", "C09_ready_again",
-            "C09_failing_bounds", "C09_recovery_allocate", "C09_recovery_count", "C09_history"]
+            "C09_silence_falls_back", "C09_silence_history", "C09_failing_bounds", "C09_recovery_allocate", "C09_recovery_count", "C09_history"]
 # VERIF_C09_MODEL=unrepaired / noreclamp compares the same cases with the model of the tree before
 # C09_clamp.diff / before C09_reclamp_on_schema_update.diff (correspondence only)
 ALT_MODEL = os.environ.get("VERIF_C09_MODEL", "")
@@ -24,6 +24,11 @@ RULE = ("distinct (schema, mode, clientset, event list) histories in which the r
         "another type, an error, a rejected or a stale reply), or readiness was lost, or the schema's limits were "
         "changed while a server quota was in force, or its type changed, or it was deleted")
 TRUSTED_BASE = [
+    "the counter-manager layer runs on a virtual clock: lib/props/c09.py generates, from the CURRENT remote_counter.go, a copy "
+    "with time.Now() -> a settable clock, the 900 ms watchdog ticker -> a ticker fired by the harness, the worker goroutine "
+    "not started (the harness plays its rounds by calling the real doAcquire); resetCheck, acquireRequest, doAcquire and send "
+    "are the real code; the limiter server is a fake clientset with a scripted acquire subresource; request times are "
+    "virtual (epoch 0 + ms + one ns per worker round); token-bucket worker rounds are generated idle only",
     "Coq 8.16.1 kernel + vm_compute (case files); no native_compute, no extraction",
     "hand-written model C09_Model.v (parameters fx=fy=fz=true: tree with build/fixes/C09_clamp.diff, "
     "C09_reclamp_on_schema_update.diff and 06780c0) tied to the code by the "
@@ -32,7 +37,12 @@ TRUSTED_BASE = [
     "bucket and client-go token bucket (only their size / qps,burst), the goroutines of the reconcile loop, of the "
     "global counter and of the heartbeat (their steps are driven one at a time by the harness), real time (virtual milliseconds: lastChange is "
     "re-based on the virtual clock right before every setLeaderStatus call), a leader change is the "
-    "setLeaderStatus(shard, leader, true) of clientSets.sync (the endpoint is not stored, no client is created)",
+    "setLeaderStatus(shard, leader, true) of clientSets.sync",
+    "the counter-manager layer runs on a virtual clock: lib/props/c09.py generates, from the CURRENT remote_counter.go, a copy "
+    "with time.Now() -> a settable clock, the 900 ms watchdog ticker -> a ticker fired by the harness, the worker goroutine "
+    "not started (the harness plays its rounds by calling the real doAcquire); resetCheck, acquireRequest, doAcquire and send "
+    "are the real code; the limiter server is a fake clientset with a scripted acquire subresource; request times are "
+    "virtual (epoch 0 + ms + one ns per round)",
 ]
 ASSUMPTIONS = [
     "the schema is valid (ValidateFlowControlConfiguration): 0 <= local <= global < 2^31, token bucket local qps >= 1, "
